@@ -665,8 +665,18 @@ func (c *Channel) processInFlightQueue(t int64) bool {
 
 	dirty := false
 	for {
+		// take the message out of the in-flight set in the same critical section,
+		// and only if the set still holds this very delivery: between two separate
+		// sections its client could requeue it and have it delivered again, and the
+		// new in-flight entry (same id, same client) would be mistaken for this one -
+		// the message would then exist twice
 		c.inFlightMutex.Lock()
 		msg, _ := c.inFlightPQ.PeekAndShift(t)
+		stillHeld := false
+		if msg != nil && c.inFlightMessages[msg.ID] == msg {
+			delete(c.inFlightMessages, msg.ID)
+			stillHeld = true
+		}
 		c.inFlightMutex.Unlock()
 
 		if msg == nil {
@@ -674,8 +684,7 @@ func (c *Channel) processInFlightQueue(t int64) bool {
 		}
 		dirty = true
 
-		_, err := c.popInFlightMessage(msg.clientID, msg.ID)
-		if err != nil {
+		if !stillHeld {
 			goto exit
 		}
 		atomic.AddUint64(&c.timeoutCount, 1)
